@@ -122,6 +122,13 @@ func (h *Handler) Handle(req, resp dhcpv6.DHCPv6) (dhcpv6.DHCPv6, bool) {
 		return nil, true
 	}
 
+	// The whole message is handled under the lock, so that concurrent messages are
+	// answered as if they had been received one after the other. Locking per IA_PD
+	// lets two messages that ask for several prefixes each split the last free
+	// blocks between them, which no order of handling them would produce
+	h.Lock()
+	defer h.Unlock()
+
 	// Each request IA_PD requires an IA_PD response
 	for _, iapd := range msg.Options.IAPD() {
 		if err != nil {
@@ -156,7 +163,6 @@ func (h *Handler) Handle(req, resp dhcpv6.DHCPv6) (dhcpv6.DHCPv6, bool) {
 
 		// A possible simple optimization here would be to be able to lock single map values
 		// individually instead of the whole map, since we lock for some amount of time
-		h.Lock()
 		if verifhook.On {
 			verifhook.Point("prefix.locked", &h.Mutex, recordKey(client), iapd.IaId)
 		}
@@ -270,7 +276,6 @@ func (h *Handler) Handle(req, resp dhcpv6.DHCPv6) (dhcpv6.DHCPv6, bool) {
 		if verifhook.On {
 			verifhook.Point("prefix.unlocking", &h.Mutex, recordKey(client), iapd.IaId)
 		}
-		h.Unlock()
 		if verifhook.On {
 			verifhook.Point("prefix.unlocked", &h.Mutex, recordKey(client), iapd.IaId)
 		}
